@@ -235,8 +235,62 @@ class Response(Scenario):
                  info=str({k: (str(ic_before[k]), str(ic_after.get(k))) for k in ic_before})[:300])
 
 
+class McElasticity(Scenario):
+    """mc.variable_elasticities / mc.parameter_elasticities: one block per Monte-Carlo row, computed on that row's values."""
+
+    modules = ["mxlpy.model", "mxlpy.mca", "mxlpy.mc", "mxlpy.scan", "mxlpy.parallel", "mxlpy"]
+    float_shim = ["mxlpy.model"]
+
+    def __init__(self, which):
+        self.which = which
+        self.key = f"C18/mc.{which}_elasticities/power/pool"
+
+    def run(self, ctx):
+        import mxlpy.parallel as mpar
+
+        saved = (mpar.pebble, mpar.tqdm)
+        mpar.pebble = PebbleStub(ctx)
+        mpar.tqdm = _Tqdm
+        try:
+            self._run(ctx)
+        finally:
+            mpar.pebble, mpar.tqdm = saved
+
+    def _run(self, ctx):
+        import pandas as pd
+
+        from mxlpy import mc
+
+        m, orders, porders = power_model(ctx)
+        h = ctx.real("h")
+        ctx.assume(h > 0)
+        ctx.assume(h < 1)
+        labels = [4, 1]
+        cells = [ctx.real(f"row{r}_k2") for r in range(2)]
+        mc_to_scan = pd.DataFrame({"k2": cells}, index=labels, dtype=object if ctx.symbolic else float)
+        state = {v: ctx.real(f"s_{v}") for v in m.get_variable_names()}
+        pv_before = dict(m.get_parameter_values())
+        fn = mc.variable_elasticities if self.which == "variable" else mc.parameter_elasticities
+        kw = dict(mc_to_scan=mc_to_scan, variables=dict(state), displacement=h, normalized=True)
+        if self.which == "parameter":
+            kw["to_scan"] = ["k1", "k2", "k3"]
+        with ctx.impl(f"mc.{self.which}_elasticities"):
+            df = fn(m, **kw)
+        known = orders if self.which == "variable" else porders
+        cols = list(df.columns)
+        for r, lab in enumerate(labels):
+            for f_ in ("v1", "v2", "v3"):
+                with ctx.impl("block lookup"):
+                    rowv = df.loc[(lab, f_)]
+                for q in cols:
+                    n = known[(f_, q)]
+                    ctx.eq(f"row {lab}: elasticity[{f_},{q}] = kinetic order {n}", rowv[q], n if n <= 2 else n + h * h)
+        pv_after = dict(m.get_parameter_values())
+        ctx.true("the caller's parameter values are the same terms afterwards", all(same_terms(pv_after[k_], pv_before[k_]) for k_ in pv_before))
+
+
 def scenarios(tier, seed):
-    scs = []
+    scs = [McElasticity("variable"), McElasticity("parameter")]
     for which in ("variable", "parameter"):
         for model in ("power", "derivedpar", "mm"):
             for normalized in (True, False):
